@@ -135,8 +135,10 @@ Proof. eexists. split; [vm_compute; reflexivity|]. vm_compute. repeat split. Qed
 
 (* ---- OPEN (depend on the run-loop model `step`, built by another package).  Stated over
    an arbitrary step function and dereference trace so that the statement is fixed here. *)
-(* OPEN roots_complete: every heap address the next instruction dereferences is reachable
-   from the roots of the state it runs in *)
+(* roots_complete: every heap address the next instruction dereferences is reachable
+   from the roots of the state it runs in.  PROVED for the dereference traces of lexical
+   accesses, ENTER, CALL/TCALL, CLOSURE and the operand load of MOV/PUSH (theorems
+   C03_roots_complete_* at the end of this file); OPEN for the builtins *)
 Definition roots_complete_stmt (step : vm -> out (vm * bool)) (derefs : vm -> list N) : Prop :=
   forall v a, In a (derefs v) -> reach v a.
 (* OPEN no_dangling: reachable addresses are allocated, as an invariant of step *)
@@ -186,3 +188,45 @@ Example C03_example_lex_access :
   RootsProofs.lex_derefs 1 EnvProofs.ex_s1 = [3; 1] /\
   Vm.load_lex_slot 1 EnvProofs.ex_s1 = VmBase.ROk (VBool true) EnvProofs.ex_s1.
 Proof. exact RootsProofs.ex_lex_derefs. Qed.
+
+(* ---- roots_complete, further instances (Proofs/RootsProofs2.v): the addresses ENTER,
+   CALL / TCALL, CLOSURE and the operand load of MOV / PUSH hand to Heap::get lie in [reach]
+   of the root set mark_roots marks — [roots_complete_stmt] for these traces, whatever the
+   step function.  ENTER: %acc's pointer, then the lambda and the closure environment of the
+   closure cell; CALL/TCALL: %acc's pointer; CLOSURE: %acc's pointer and %ep; operand load:
+   the code object %ip.0, a raw pointer operand of it, or the addresses of a lexical access. *)
+From MW Require Proofs.RootsProofs2 Proofs.FlatProofs.
+
+Theorem C03_roots_complete_enter : forall step, roots_complete_stmt step RootsProofs2.enter_derefs.
+Proof. intros step v a. exact (RootsProofs2.enter_derefs_reachable v a). Qed.
+Print Assumptions C03_roots_complete_enter.
+
+Theorem C03_enter_derefs_complete : forall s lam cep r s',
+  Heap.heap_deref (hp s) (acc s) = Ok (VClosure lam cep) -> Vm.enter_frame s = VmBase.ROk r s' ->
+  In lam (RootsProofs2.enter_derefs s) /\ In cep (RootsProofs2.enter_derefs s).
+Proof. exact RootsProofs2.enter_derefs_complete. Qed.
+Print Assumptions C03_enter_derefs_complete.
+
+Theorem C03_roots_complete_call : forall step, roots_complete_stmt step RootsProofs2.call_derefs.
+Proof. intros step v a. exact (RootsProofs2.call_derefs_reachable v a). Qed.
+Print Assumptions C03_roots_complete_call.
+
+Theorem C03_roots_complete_closure : forall step, roots_complete_stmt step RootsProofs2.closure_derefs.
+Proof. intros step v a. exact (RootsProofs2.closure_derefs_reachable v a). Qed.
+Print Assumptions C03_roots_complete_closure.
+
+Theorem C03_roots_complete_operand : forall step, roots_complete_stmt step RootsProofs2.operand_derefs.
+Proof. intros step v a. exact (RootsProofs2.operand_derefs_reachable v a). Qed.
+Print Assumptions C03_roots_complete_operand.
+
+Theorem C03_operand_derefs_complete : forall s p v s',
+  Vm.read_operand s = VmBase.ROk (VPtr p) s' -> VmBase.hget p s' = VmBase.ROk v s' ->
+  In p (RootsProofs2.operand_derefs s).
+Proof. exact RootsProofs2.operand_derefs_complete. Qed.
+Print Assumptions C03_operand_derefs_complete.
+
+(* non-vacuity: ENTER on the example machine dereferences %acc = 2 (the closure cell), then
+   the lambda at 0 and the closure environment at 1 *)
+Example C03_example_enter_derefs :
+  RootsProofs2.enter_derefs (EnvProofs.ex_vm (VBool false)) = [2; 0; 1].
+Proof. exact RootsProofs2.ex_enter_derefs. Qed.
